@@ -186,6 +186,14 @@ def configs(draw, kind="wf"):
     cfg = dict(
         worker=worker,
         n_procs=draw(st.integers(1, 3)) if worker == "cf" else None,
+        # size of the process pool relative to the CPUs available to this process (resolved by
+        # props/c29.py:resolve_n_procs; replaces n_procs when set): below / at / above the number
+        # of CPUs and "default" = n_procs not given.  Only where the pool never gets work: a
+        # ProcessPoolExecutor forks ALL its processes at the first submission, so workflow jobs
+        # (the only ones that go through the pool) keep the small absolute sizes.
+        n_procs_rel=(draw(st.sampled_from([None, "default", "cpus-1", "cpus", "cpus+1", "2*cpus",
+                                           "8*cpus+1"]))
+                     if worker == "cf" and kind != "wf" else None),
         worker_as_object=draw(st.booleans()),
         n_readonly=draw(st.integers(0, 2)),
         ro_has_result=draw(st.booleans()),
